@@ -447,7 +447,14 @@ where
         let _timer = ScopedTimer::new("filter_out_conflicts_and_append");
         // prev_log_index == 0 means the leader wants the follower to start from scratch
         // (e.g. new follower joining, or follower log fully diverged). Reset and replace.
-        if prev_log_index == 0 && prev_log_term == 0 {
+        // prev (0, 0) matches any log (Raft: "the log starts here"). An empty log takes the
+        // entries as they are (so does a batch that does not start at index 1: a fresh
+        // install). A regular request starting at index 1 on a non-empty log goes through the
+        // same overlap / conflict handling as any other request, so entries that already
+        // agree with the leader (possibly committed) are kept instead of being wiped.
+        let from_log_start = prev_log_index == 0 && prev_log_term == 0;
+        let starts_at_one = new_entries.first().is_some_and(|e| e.index == 1);
+        if from_log_start && (self.last_entry_id() == 0 || !starts_at_one) {
             self.reset().await?;
             self.append_entries(new_entries.clone()).await?;
             return Ok(new_entries.last().map(|e| LogId {
@@ -459,7 +466,7 @@ where
         // Check log consistency: use entry_term() so purge-boundary entries
         // (entries removed from the SkipMap but recorded in last_purged_index/term)
         // are still recognised as valid prev_log positions after snapshot install.
-        if self.entry_term(prev_log_index) != Some(prev_log_term) {
+        if !from_log_start && self.entry_term(prev_log_index) != Some(prev_log_term) {
             return Ok(self.last_log_id());
         }
 
